@@ -79,7 +79,14 @@ def fitted_model(rng, nmax=9, mmax=5, kinds=("generic",), optimizers=("QR", "CCQ
     ocfg = {"kind": ok}
     if ok == "CCQR":
         ocfg["sensor_costs"] = (rng.integers(-8, 9, size=n) / 4.0).tolist()
-    model = SSPOR(basis=impl.make_basis({"kind": bk, "n_basis_modes": mm}), optimizer=impl.make_optimizer(ocfg))
+    # the count requested at construction (default, below the mode count, anything up to n) must not matter once the caller sets
+    # the number of sensors; integer-valued training data may arrive in an integer-typed array
+    u = rng.random()
+    ns_req = None if u < 0.3 else (int(rng.integers(1, mm)) if (u < 0.7 and mm >= 2) else int(rng.integers(1, n + 1)))
+    if bk == "Identity" and np.all(X == np.round(X)) and rng.random() < 0.5:
+        X = X.astype(np.int64)
+    model = SSPOR(basis=impl.make_basis({"kind": bk, "n_basis_modes": mm}), optimizer=impl.make_optimizer(ocfg), n_sensors=ns_req)
     impl.quiet(model.fit, X, quiet=True, seed=int(rng.integers(0, 100)))
-    cfg = {"X": X.tolist(), "matrix_kind": kind, "basis": {"kind": bk, "n_basis_modes": mm}, "optimizer": ocfg}
+    cfg = {"X": X.tolist(), "matrix_kind": kind, "basis": {"kind": bk, "n_basis_modes": mm}, "optimizer": ocfg, "n_sensors_at_construction": ns_req,
+           "dtype": str(X.dtype)}
     return model, X, cfg
